@@ -402,7 +402,7 @@ func TestC12AccessRulesTCP(t *testing.T) {
 
 func TestC12TCPEndToEnd(t *testing.T) {
 	var accepts int64
-	up, err := net.Listen("tcp", "127.0.0.1:0")
+	up, err := hx.Listen("tcp", "127.0.0.1:0")
 	if err != nil {
 		t.Fatal(err)
 	}
@@ -444,7 +444,7 @@ func TestC12TCPEndToEnd(t *testing.T) {
 		if v6 {
 			laddr, peer = "[::1]:0", netip.MustParseAddr("::1")
 		}
-		ln, err := net.Listen("tcp", laddr)
+		ln, err := hx.Listen("tcp", laddr)
 		if err != nil {
 			t.Skip("no listener on " + laddr)
 		}
